@@ -560,6 +560,17 @@ func genC03For(target string) func(t *rapid.T) c03Case {
 			default:
 				d, v := c.Dialect, c.V2019
 				b := mutate(t, validBody(t, &c, label+"_valid"), label+"_mut")
+				if target == "jt808.Decode" && rapid.Bool().Draw(t, label+"_refit") {
+					// frames get past the check code only with a fitting one: take 0..n leading bytes of the mutated payload
+					// (every short length, so that each header guard is met) and give them the right check code
+					if pay, why := ref.Unescape(b); why == "" && len(pay) >= 1 {
+						pay = pay[:len(pay)-1]
+						if rapid.Bool().Draw(t, label+"_short") {
+							pay = pay[:min(len(pay), rapid.IntRange(0, 24).Draw(t, label+"_keep"))]
+						}
+						b = ref.Escape(append(append([]byte{}, pay...), ref.Xor(pay)))
+					}
+				}
 				if label != "body" {
 					c.Dialect, c.V2019 = d, v
 				}
